@@ -570,16 +570,18 @@ META = {
              "pattern up to length 6/7 and every pivot position: cursor safety and bag preservation in every state, the post-condition "
              "at return, panic iff out-of-range, termination. Every (pattern, pivot) TLC explored is then executed by the real code on "
              "four strides in dev and release builds and the observation is judged by TLC against the same PartitionOK predicate, so a "
-             "code change that breaks the contract on any small pattern is caught deterministically.",
-        design_ref="DESIGN.md section 5, C15", note=SORT_NOTE, technique="TLC model checking of a TLA+ transcription + behaviour replay + trace validation"),
+             "code change that breaks the contract on any small pattern is caught deterministically. For every array length the cursor-safety, "
+             "no-panic and arrangement clauses are proved with TLAPS on PartitionAlg, which TLC shows to be refined by the checked machine.",
+        design_ref="DESIGN.md section 5, C15 and section 8.6", note=SORT_NOTE, technique="TLC model checking of a TLA+ transcription + behaviour replay + trace validation; TLAPS proof of the loop invariant for every length (refinement checked by TLC)"),
     "C02": dict(
         text="Select and Bulk are TLA+ state machines whose pivot draw is a nondeterministic choice, so TLC visits every pivot schedule "
              "for every pattern up to the bound and checks SelectOK/BulkOK, bag and window invariants and termination. Each complete "
              "behaviour (pattern, request, pivot sequence) is replayed into the real code through the scripted pivot hook, and all "
              "observations (also of long random lanes under real RNG and hostile pivot policies) are validated by TLC; logged pivots "
-             "are additionally re-run through the transcription to detect drift.",
-        design_ref="DESIGN.md section 5, C02", note=SORT_NOTE + "The pivot hook is trusted to report the pivots actually used.",
-        technique="TLC model checking over all pivot schedules + scripted-pivot replay + trace validation"),
+             "are additionally re-run through the transcription to detect drift. For every length, position and pivot sequence the window "
+             "invariants, absence of panics and the arrangement clause are proved with TLAPS on SelectAlg (refined by the checked machine).",
+        design_ref="DESIGN.md section 5, C02 and section 8.6", note=SORT_NOTE + "The pivot hook is trusted to report the pivots actually used.",
+        technique="TLC model checking over all pivot schedules + scripted-pivot replay + trace validation; TLAPS proof of the recursion invariant for every length (refinement checked by TLC)"),
     "C16": dict(
         text="The same state machines are explored with requests ranging over 0..n+1 and a usize::MAX token on lengths 0..N, with and "
              "without the debug assertions, checking 'panics iff out of range' under every pivot sequence; every such behaviour is "
@@ -611,8 +613,9 @@ META.update({
              "stride); TLC checks RemoveNanOK, frame and loop invariants, idempotence and termination for every missing-pattern up to length 6/8, strides "
              "-3..3 and offsets, for both element kinds. Every pattern is replayed for the element types (all 14 in the thorough tier) and the returned "
              "view's pointer, length and stride are judged by TLC; lanes of n-D arrays are covered through map_axis_skipnan_mut; the call is repeated to "
-             "check determinism and idempotence.",
-        design_ref="DESIGN.md section 5, C04", note=GEN_NOTE + "Contents are read back through the parent buffer, never through the NotNan-typed view; UB itself is not observed (a worker abort is an outcome).", technique=TECH),
+             "check determinism and idempotence. For every lane length the loop invariant and 'the returned prefix is exactly the non-missing part' are "
+             "proved with TLAPS on RemoveNanAlg (refined by the checked machine).",
+        design_ref="DESIGN.md section 5, C04 and section 8.6", note=GEN_NOTE + "Contents are read back through the parent buffer, never through the NotNan-typed view; UB itself is not observed (a worker abort is an outcome).", technique=TECH),
     "C05": dict(
         text="The extremum scans are a TLA+ state machine (seed with the first element, compare every element through a partial order that fails on NaN); "
              "TLC checks the scan invariant and ArgOK/ValOK for every sequence of length <= 5/6 over ranks {NaN,1,2,3}. Each sequence is laid out as every "
